@@ -15,6 +15,20 @@ PROPS = {
             "note": "Trusted: the odometer reference model (textbook leap rule), rustc. Nothing is said about non-ISO calendars (C16).",
         },
     },
+    "C06": {
+        "builds": ["chk", "rel"],
+        "rule": ("seeded valid time-only durations with hostile magnitudes (single huge fields up to 9.007e24 ns, fields beyond 2^63 ns, mixed fields, both signs; "
+                 "directed vectors from DESIGN.md) x wall-clock times {00:00, 23:59:59.999999999, all-distinct, random} x instants {limits, negative "
+                 "sub-millisecond, random}; each case evaluates add/subtract/add_time_duration on PlainTime and Instant, refusal of date units, until/since "
+                 "for every time largest unit, epoch-millisecond floor law. non-trivial = |total| >= 2^63 ns, or the time wraps midnight, or the instant is "
+                 "negative; distinct by (receiver,total) fingerprint. Run in both the overflow-checking and the plain release build"),
+        "assumptions": ["refmodel::dur: exact i128 totals, BalanceTimeDuration, IsValidDuration; duration fields above 2^53 are the nearest double of the exact balanced value"],
+        "manifest": {
+            "technique": "runtime monitoring: exact big-integer arithmetic oracle on observed add/subtract/until/since/epochMilliseconds calls, two builds",
+            "text": "Every observed PlainTime/Instant arithmetic result is compared with exact integer arithmetic on the duration's total nanoseconds (mod 24 h for times, range-checked for instants); differences are compared field by field with the exact balance. Workload concentrates on totals beyond 2^63 ns, midnight wraps, the instant limits and negative instants. Holds on the executions generated; not a proof for all durations.",
+            "note": "Trusted: refmodel::dur. Durations that the constructor refuses although the model calls them valid are counted inconclusive here (the verdict belongs to C09/C02).",
+        },
+    },
     "C07": {
         "builds": ["chk"],
         "rule": ("(a) hook sweep, exhaustive for the stated space: round_i128 for inc in 1..=64, {100,125,1000,999999937} x every x in [-3inc,3inc] and "
